@@ -119,7 +119,11 @@ class Ctx:
         if f is False:
             raise PathInfeasible()
         self.pc.append(f)
-        self.solver.add(f)
+        # the exploration solver only sees the quantifier-free part of the path condition: an over-approximation of
+        # feasibility (extra paths only produce obligations with unsatisfiable hypotheses, dropped by the cover
+        # query); obligations are always discharged under the FULL path condition
+        if not _has_quantifier(f):
+            self.solver.add(f)
         if tag:
             self.axioms_used.add(tag)
 
@@ -190,6 +194,21 @@ class Ctx:
         if self.muted:
             return
         self.events.append((kind, kw))
+
+
+def _has_quantifier(f):
+    seen, stack = set(), [f]
+    while stack:
+        x = stack.pop()
+        i = x.get_id()
+        if i in seen:
+            continue
+        seen.add(i)
+        if z3.is_quantifier(x):
+            return True
+        if z3.is_app(x):
+            stack.extend(x.children())
+    return False
 
 
 class PathResult:
